@@ -46,12 +46,11 @@ func (f filter) Matches(series storage.Series) bool {
 		return true
 	}
 
-	for _, l := range series.Labels() {
-		m, ok := f.matcherSet[l.Name]
-		if !ok {
-			continue
-		}
-		if !m.Matches(l.Value) {
+	// Every matcher has to hold, also on a label the series does not have
+	// (which matches as the empty value) and when a label name is repeated.
+	lbls := series.Labels()
+	for _, m := range f.matchers {
+		if !m.Matches(lbls.Get(m.Name)) {
 			return false
 		}
 	}
